@@ -7,7 +7,7 @@ Every random choice comes from one SplitMix64 state, so a trace is reproducible 
   own    operation whose (projected) output the property under check speaks about
 """
 
-GEN_VERSION = 6
+GEN_VERSION = 8
 
 MASK64 = (1 << 64) - 1
 
@@ -369,10 +369,10 @@ def ops_C11(t, reg):
     st = view_script(t, reg, ["at", "at", "left", "right", "left", "right"], 4)
     mut = r.chance(35)
     if mut:
-        act = r.pick(["prefix", "value", "pv", "has", "iter", "walk"])
+        act = r.pick(["prefix", "value", "pv", "has", "iter", "walk", "aspv", "aspv"])
         t.emit("viewmut %s %s : %s" % (reg, " ".join(st), act), "own")
     else:
-        act = r.pick(["prefix", "value", "pv", "iter", "keys", "values", "walk", "has"])
+        act = r.pick(["prefix", "value", "pv", "iter", "keys", "values", "walk", "has", "aspv"])
         t.emit("view %s %s : %s" % (reg, " ".join(st), act), "own")
 
 
@@ -493,7 +493,12 @@ def gen_C14(t, n):
         reg = r.pick(["A", "B"])
         t.probes(reg)
         c = r.below(100)
-        if c < 45:
+        if c < 12:
+            # two threads insert / remove values through the two sides of a split view (shared entry counter)
+            st = view_script(t, reg, ["at", "left", "right"], 2)
+            t.emit(" ".join(("par_churn %s %d %s" % (reg, 20000, " ".join(st))).split()), "own")
+            t.emit("len %s" % reg, "own")
+        elif c < 45:
             st = view_script(t, reg, ["at", "left", "right", "find"], 3)
             t.emit("par_bump %s %d %s" % (reg, 1 + r.below(4), " ".join(st)), "own")
             t.emit("iter %s" % reg, "own")
@@ -776,6 +781,7 @@ def _exh_observe(prop, out, reg, host, canonical):
             out.append(("view %s at:%s : walk" % (reg, q(k)), own))
             out.append(("view %s at:%s : pv" % (reg, q(k)), own))
             out.append(("viewmut %s at:%s : has" % (reg, q(k)), own))
+            out.append(("viewmut %s at:%s : aspv" % (reg, q(k)), own))
         out.append(("view %s left right : iter" % reg, own))
         out.append(("view %s right left : iter" % reg, own))
     elif prop == "C12":
